@@ -27,6 +27,7 @@ cargo test --offline --features human_encoding,test-utils --test seeded_demo >/t
 echo "   exit $without"
 git stash pop -q
 echo "== checks on /repo with the change applied"
+evbak=$(mktemp -d /tmp/evidence-backup.XXXXXX); cp -a /verif/evidence/. "$evbak"/
 cd /repo && git apply "$out/patch.diff" || { echo "patch does not apply to /repo"; exit 2; }
 results=""
 for id in "$@"; do
@@ -37,6 +38,7 @@ for id in "$@"; do
   results="$results{\"check\":\"$id\",\"exit\":$rc,\"violation_lines\":$nv,\"first\":$(python3 -c "import json,sys; print(json.dumps(sys.argv[1]))" "$first")},"
 done
 git -C /repo checkout -- . ; git -C /repo status --short | head -3
+cp -a "$evbak"/. /verif/evidence/ && rm -rf "$evbak"
 rm -rf /verif/replays/* 2>/dev/null
 python3 - "$out" "$name" "$suite" "$with" "$without" "[${results%,}]" <<'PY'
 import json,sys
